@@ -1,5 +1,5 @@
-(* C06 — inside every known class the property fails: concrete datagrams on a concrete
-   participant state (Wire/RecvModel.v: demo_state and the w_* byte strings), by computation. *)
+(* C06 — non-vacuity and regression by computation on a concrete participant state
+   (Wire/RecvModel.v: demo_state and the w_* byte strings). *)
 From DustDDS Require Import Base.Machine Base.Bytes Wire.WireModel Wire.RecvModel Wire.RecvProofs.
 Open Scope Z_scope.
 
@@ -8,70 +8,34 @@ Proof.
   split; repeat constructor; cbn; unfold i64_min, i64_max; try lia; try discriminate.
 Qed.
 
-(* 1: INFO_REPLY panics every participant, whatever its state and whoever sent it *)
-Lemma inforeply_panics : forall st, handle_datagram st w_inforeply = Panic S_MR_INFO_REPLY.
-Proof. intros st. vm_compute. reflexivity. Qed.
-Lemma inforeply_class : C06_known_dgram w_inforeply = true /\ len w_inforeply = 52.
-Proof. split; vm_compute; reflexivity. Qed.
-
-(* 2: the GAP range loop: 2^62 - 1 iterations for a 52-byte datagram *)
-Lemma gap_range_steps :
-  datagram_steps demo_state w_gap_range = 2 ^ 62 - 1 /\ len w_gap_range = 52 /\
-  existsb k_gap_range (subs_of w_gap_range) = true /\ existsb known_panic (subs_of w_gap_range) = false.
-Proof. repeat split; vm_compute; reflexivity. Qed.
-
-(* 3: sequence number set members at the i64 boundary *)
-Lemma set_iter_panics : handle_datagram demo_state w_set_iter = Panic (S_SE + 63).
+(* the fifteen datagrams that panicked or hung the participant before the repairs (INFO_REPLY,
+   GAP over 2^62 numbers, set members at i64::MAX, ACKNACK base i64::MIN, HEARTBEAT first i64::MIN,
+   sequence number i64::MAX, fragment counts 65535 for one payload byte) are byte strings ... *)
+Lemma former_witnesses_bytes : forallb bytes_okb former_witnesses = true.
 Proof. vm_compute. reflexivity. Qed.
-Lemma set_member_max_panics : handle_datagram demo_state w_set_member_max = Panic S_SW_REQGAP.
-Proof. vm_compute. reflexivity. Qed.
-(* a GAP naming i64::MAX is accepted and poisons the proxy: the next, perfectly ordinary DATA of
-   that writer panics the participant *)
-Lemma gap_member_max_poisons :
-  exists st1 o, handle_datagram demo_state w_gap_member_max = Ok (st1, o) /\
-                C06_known_dgram w_data_5 = false /\ handle_datagram st1 w_data_5 = Panic S_SR_EXPECTED.
-Proof. do 2 eexists. split; [vm_compute; reflexivity|]. split; vm_compute; reflexivity. Qed.
-
-(* 4: ACKNACK base i64::MIN *)
-Lemma acknack_min_panics : handle_datagram demo_state w_acknack_min = Panic S_SW_ACKED.
-Proof. vm_compute. reflexivity. Qed.
-
-(* 5: HEARTBEAT first_sn i64::MIN: at once, or (final flag) at the next DATA *)
-Lemma hb_min_panics : handle_datagram demo_state w_hb_min = Panic S_WP_FIRST.
-Proof. vm_compute. reflexivity. Qed.
-Lemma hb_min_poisons :
-  exists st1 o, handle_datagram demo_state w_hb_min_final = Ok (st1, o) /\
-                C06_known_dgram w_data_1 = false /\ handle_datagram st1 w_data_1 = Panic S_WP_FIRST.
-Proof. do 2 eexists. split; [vm_compute; reflexivity|]. split; vm_compute; reflexivity. Qed.
-
-(* 6: sequence number i64::MAX *)
-Lemma nackfrag_max_panics : handle_datagram demo_state w_nackfrag_max = Panic S_SW_NFGAP.
-Proof. vm_compute. reflexivity. Qed.
-Lemma data_max_poisons :
-  exists st1 o1 st2 o2, handle_datagram demo_state w_hb_first_max = Ok (st1, o1) /\
-    C06_known_dgram w_hb_first_max = false /\
-    handle_datagram st1 w_data_max = Ok (st2, o2) /\
-    C06_known_dgram w_data_3 = false /\ handle_datagram st2 w_data_3 = Panic S_SR_EXPECTED.
+(* ... handled one after the other without a panic, with no sender-chosen work left *)
+Lemma former_witnesses_handled :
+  is_ok (run_datagrams demo_state former_witnesses) = true /\
+  datagram_steps demo_state w_gap_range = 0 /\ datagram_steps demo_state w_frag_flood = 0 /\
+  (forall st, handle_datagram st w_inforeply = Ok (st, [])).
 Proof.
-  do 4 eexists. split; [vm_compute; reflexivity|]. split; [vm_compute; reflexivity|].
-  split; [vm_compute; reflexivity|]. split; vm_compute; reflexivity.
+  split; [vm_compute; reflexivity|]. split; [vm_compute; reflexivity|]. split; [vm_compute; reflexivity|].
+  intros st. vm_compute. destruct st; reflexivity.
 Qed.
 
-(* 7: 50 DATA_FRAGs of one payload byte each, 1870 bytes: 65535 * 50 * 50 buffer comparisons
-   (the count grows with the square of the number of fragments in the datagram) *)
-Lemma frag_flood_steps :
-  datagram_steps demo_state w_frag_flood = (65535 * 50 + 1) * 50 /\ len w_frag_flood = 1870 /\
-  existsb k_frag_count (subs_of w_frag_flood) = true /\ existsb known_panic (subs_of w_frag_flood) = false /\
-  steps_bound (len (subs_of w_frag_flood)) 1 (frag_bytes (subs_of w_frag_flood)) < datagram_steps demo_state w_frag_flood.
-Proof. repeat split; vm_compute; reflexivity. Qed.
-
-(* outside the classes: a datagram with eight submessages (INFO_TS, HEARTBEAT, GAP, ACKNACK,
-   DATA_FRAG, NACK_FRAG, INFO_SRC, DATA) is handled, four datagrams are sent in reply *)
+(* a datagram with eight submessages (INFO_TS, HEARTBEAT, GAP, ACKNACK, DATA_FRAG, NACK_FRAG,
+   INFO_SRC, DATA) is handled, four datagrams are sent in reply *)
 Lemma clean_handled :
-  dgram_fine w_clean /\ len (subs_of w_clean) = 8 /\
-  exists st1 o, handle_datagram demo_state w_clean = Ok (st1, o) /\ len o = 4 /\
-                datagram_steps demo_state w_clean = 1.
+  bytes_okb w_clean = true /\ len (subs_of w_clean) = 8 /\
+  exists st1 o, handle_datagram demo_state w_clean = Ok (st1, o) /\ len o = 4.
 Proof.
-  split; [split; vm_compute; reflexivity|]. split; [vm_compute; reflexivity|].
-  do 2 eexists. split; [vm_compute; reflexivity|]. split; vm_compute; reflexivity.
+  split; [vm_compute; reflexivity|]. split; [vm_compute; reflexivity|].
+  do 2 eexists. split; vm_compute; reflexivity.
 Qed.
+
+(* the reassembly loop is still quadratic in the fragments buffered for one sample: 40 honest
+   one-byte fragments of a 40-byte sample cost (40 + 1) * 40 buffer comparisons when the last
+   one arrives *)
+Lemma reassembly_quadratic :
+  bytes_okb w_honest_frags = true /\ datagram_steps demo_state w_honest_frags = 41 * 40.
+Proof. split; vm_compute; reflexivity. Qed.
